@@ -20,9 +20,11 @@ CLAIM = (
     "miss the map; (5) the dispatch over the kinds of constants is exhaustive (EXH1)."
     " SKIPS: the loops of the functions in scope have no more `continue`, `break` or in-loop `return` statements than the reference "
     "read on the unchanged tree (baselines/skips.json): a new skip means elements that were handled are no longer handled."
+    " LIT-KW: duplicate_curly_brackets / in_backticks / without_enclosing are passed to a literal function only inside "
+    "transform_joined_str (a stand-alone literal emitted with them denotes another text)."
 )
 NOTE = (
-    "Imported: C19 (python string_literal / bytes_literal denote their argument). Not decided: the run-time values of the generated "
+    "Shared with C19: the CHR rule is run here on python string_literal (it decides that the literal denotes its argument). Not decided: the run-time values of the generated "
     "module. str() of a float that is inf/nan is not a Python literal; such constants cannot be written in the meta-model subset."
 )
 TECHNIQUE = "static analysis: loop/guard coverage of the verification functions, error-discipline typestate, per-arm literal-function table, sibling agreement of the enumeration generators"
@@ -84,6 +86,7 @@ def run(ctx) -> None:
         err.check_err3(ctx, f, "ERR3")
         err.check_err12(ctx, f, "ERR1", "ERR1v", "ERR2")
     sp = p.func(f"{TR}:_second_pass_to_resolve_constant_subsets_in_place")
+    gen.check_full_iteration(ctx, "SUBSET", sp, "constants", "second pass over the constants", allowed_skip_tests=("isinstance({v}, ConstantPrimitive)",))
     err.check_err12(ctx, sp, "ERR1", "ERR1v", "ERR2")
     err.check_err3(ctx, sp, "ERR3")
     exh.check_exh1(ctx, sp, "EXH1")
@@ -154,6 +157,17 @@ def run(ctx) -> None:
         ctx.fail("ENUM-RT", gs, gs.node, "the from-string key is not python_common.string_literal(literal.value)", construct="from-string key literal")
     for f in p.module(f"{PKG}.{PC}").functions.values():
         exh.check_exh1(ctx, f, "EXH1")
+    # the Python literal functions through which the values are emitted (shared with C19)
+    ctx.rule("CHR", "python string/bytes literal functions: forbidden characters never raw, only legal escapes (shared with C19)", floor=40)
+    from . import c19 as _c19
+    from ..rules import chr as _C
+    for lang, key, modes in _c19.JOBS:
+        if lang != "python":
+            continue
+        lf = p.func(key)
+        for mode in modes:
+            for part in _C.analyse_escaper(ctx, lf, mode, _C.spec_boundaries(lang)):
+                _C.judge(ctx, "CHR", part, lang)
 
     ctx.rule("SKIPS", "the loops of the functions in scope have no more continue/break/return-in-loop statements than the reference read on the unchanged tree", floor=2)
     from ..rules import skips as _skips
@@ -162,3 +176,6 @@ def run(ctx) -> None:
         if _m.name in ("aas_core_codegen.python.lib._generate_constants", "aas_core_codegen.python.lib._generate_stringification"):
             for _f in _m.functions.values():
                 _skips.check_skips(ctx, _f, "SKIPS", _base)
+    ctx.rule("LIT-KW", "interpolation-only options of the literal functions are used only for parts of interpolated strings", floor=4)
+    from ..rules import litkw as _litkw
+    _litkw.check_literal_keywords(ctx, "LIT-KW")
